@@ -638,7 +638,9 @@ def gen_files(repo) -> dict:
 
 
 def gen_files_c16(repo) -> dict:
-    return {"Codes.v": translate_codes(repo), "ApplyGen.v": translate_apply(repo)}
+    from . import astcopy
+
+    return {"Codes.v": translate_codes(repo), "ApplyGen.v": translate_apply(repo), "CopyGen.v": astcopy.translate_copy(repo), "RangeGen.v": astcopy.translate_range(repo)}
 
 
 if __name__ == "__main__":
